@@ -39,6 +39,7 @@ func init() {
 			kvLookupVisitsEveryTable(r)
 			fragmentCreateAtomic(r)
 			compactionShape(r)
+			kvPutGrowsStore(r)
 		},
 	})
 }
